@@ -406,6 +406,47 @@ def _run_chain(case):
                             viols.append(V("C18:chain:values-differ:%s" % dk, "values %r after the round trip, were %r" % (numpy.ma.getdata(b).ravel().tolist(), numpy.ma.getdata(first).ravel().tolist()), **tag))
                         else:
                             outcomes["chain:ok:%s" % dk] = outcomes.get("chain:ok:%s" % dk, 0) + 1
+        # a result DERIVED from a read that used MissingValue, holding the marker's number at ordinary cells (A - A = 0 with MissingValue = 0)
+        for vt, vals in (("f8", [0.0, 1.5, 2.0, 0.0, 3.0, 100.0]), ("i4", [0, 1, 2, 0, 3, 100])):
+            _make_template(os.path.join(work, "in.nc"), grid, {"v": (vt, vals, None, None)})
+            for mv in (0, 2):
+                for dtype in (None, "Integer"):
+                    from mpilot.program import Program
+
+                    p = Program(libraries=("mpilot.libraries.eems.basic", "mpilot.libraries.eems.netcdf"), working_dir=work)
+                    args = {"InFileName": "in.nc", "InFieldName": "v", "MissingValue": mv}
+                    if dtype:
+                        args["DataType"] = dtype
+                    p.add_command(p.find_command_class("EEMSRead"), "R", args)
+                    p.add_command(p.find_command_class("EEMSRead"), "S", dict(args, MissingValue=12345))
+                    p.add_command(p.find_command_class("AMinusB"), "D", {"A": "R", "B": "S"})      # zeros wherever R is present
+                    p.add_command(p.find_command_class("Sum"), "E", {"InFieldNames": ["R", "D"]})  # R again, computed
+                    p.add_command(p.find_command_class("EEMSWrite"), "W", {"OutFileName": "out.nc", "OutFieldNames": ["D", "E"], "DimensionFileName": "in.nc", "DimensionFieldName": "v"})
+                    if os.path.exists(os.path.join(work, "out.nc")):
+                        os.remove(os.path.join(work, "out.nc"))
+                    evals += 1
+                    tag = {"nc_type": vt, "values": vals, "MissingValue": mv, "DataType": dtype, "model": "R = Read(MissingValue); S = Read; D = R - S; E = R + D; write [D, E]"}
+                    sample = tag
+                    try:
+                        with numpy.errstate(all="ignore"):
+                            before = {n_: p.commands[n_].result.copy() for n_ in ("D", "E")}
+                            p.commands["W"].result
+                    except MPilotError as exc:
+                        viols.append(V("C18:chain:derived:raised:%s" % type(exc).__name__, "model raised %s" % str(exc).split("\n")[0][:160], **tag))
+                        continue
+                    for n_ in ("D", "E"):
+                        res = _eems_read(work, "out.nc", n_, dtype, None)
+                        first = before[n_]
+                        union = numpy.ma.getmaskarray(before["D"]) | numpy.ma.getmaskarray(before["E"])
+                        if res[0] == "err":
+                            viols.append(V("C18:chain:derived:reread-raised:%s" % type(res[1]).__name__, "re-reading %s raised %s" % (n_, str(res[1]).split("\n")[0][:120]), **tag))
+                        elif (numpy.ma.getmaskarray(res[1]) != union).any():
+                            viols.append(V("C18:chain:derived:missing-cells-differ", "%s: missing cells %r after the round trip, written %r (values %r)" % (
+                                n_, numpy.ma.getmaskarray(res[1]).ravel().tolist(), union.ravel().tolist(), numpy.ma.getdata(first).ravel().tolist()), **tag))
+                        elif not numpy.array_equal(numpy.ma.getdata(res[1])[~union], numpy.ma.getdata(first)[~union]):
+                            viols.append(V("C18:chain:derived:values-differ", "%s: values differ after the round trip" % n_, **tag))
+                        else:
+                            outcomes["chain:derived:ok"] = outcomes.get("chain:derived:ok", 0) + 1
     finally:
         import shutil
         shutil.rmtree(work, ignore_errors=True)
@@ -413,7 +454,7 @@ def _run_chain(case):
 
 
 TEMPLATE_STYLES = ("plain", "packed", "packed-both", "fill", "fill-nan", "int", "unsigned", "attrs", "descending",
-                   "format:NETCDF3_CLASSIC", "format:NETCDF3_64BIT_OFFSET", "format:NETCDF4_CLASSIC")  # the file flavour of the template is its own business
+                   "format:NETCDF3_CLASSIC", "format:NETCDF3_64BIT_OFFSET", "format:NETCDF4_CLASSIC", "tvar-attrs")  # the file flavour of the template is its own business
 
 
 def _styled_template(path, style):
@@ -457,6 +498,9 @@ def _styled_template(path, style):
             x = ds.createVariable("x", "f4", ("x",))
             x[:] = [1, 2, 3]
         t = ds.createVariable("t", "f8", ("y", "x"))
+        if style == "tvar-attrs":
+            # the template's DATA variable carries attributes that netCDF4 acts upon when reading: they are the template's, not the results'
+            t.setncatts({"valid_min": 0.0, "valid_max": 5.0, "missing_value": 3.0, "scale_factor": 2.0, "add_offset": 1.0, "long_name": "template field"})
         t[:] = numpy.arange(6.0).reshape(2, 3)
 
 
